@@ -355,4 +355,20 @@ theorem idFilterText_keeps_earlier (maxid : ℚ) (rows : List Row) (r : Nat) (hr
 
 example : (1 : Nat) ∉ filterGreedy (fun x y => (x + y) % 2 == 0) ([3] ++ 1 :: [2, 0]) [] := by decide
 
+/-- digital mode, any preference vector: a dropped row reaches the threshold with a kept row that esl_quicksort ranked
+    before it -/
+theorem idFilterDigital_keeps_better_ranked (abc : Abc) (maxid : ℚ) (sortwgt : List ℚ) (rows : List Row) (r : Nat)
+    (hr : r < rows.length) (h : r ∉ idFilterDigital abc maxid sortwgt rows) :
+    ∃ pre post k, quicksort (cmpDecreasing sortwgt) rows.length = pre ++ r :: post ∧ k ∈ pre ∧
+      k ∈ idFilterDigital abc maxid sortwgt rows ∧
+      maxid ≤ pid (α := ℚ) (Mode.digital abc) (rows.getD r []) (rows.getD k []) := by
+  obtain ⟨pre, post, hsplit⟩ := List.append_of_mem ((mem_quicksort (cmpDecreasing sortwgt) rows.length r).mpr hr)
+  unfold idFilterDigital idFilterOrder at h ⊢
+  rw [hsplit] at h ⊢
+  obtain ⟨k, hk, hl, hkept⟩ := filterGreedy_dropped_by_earlier _ _ _ r h
+  refine ⟨pre, post, k, rfl, ?_, hkept, by simpa [linked] using hl⟩
+  rcases filterGreedy_subset _ _ _ k hk with h' | h'
+  · simp at h'
+  · exact h'
+
 end EaselModel.Props.C16
